@@ -1104,12 +1104,18 @@ stream_encoder_mt_init(lzma_next_coder *next, const lzma_allocator *allocator,
 	coder->sequence = SEQ_STREAM_HEADER;
 	coder->block_size = (size_t)(block_size);
 	coder->outbuf_alloc_size = (size_t)(outbuf_size_max);
-	coder->thread_error = LZMA_OK;
-	coder->thr = NULL;
 
 	// Allocate the thread-specific base structures.
+	//
+	// The old threads (if any) aren't reused. Stopping them without
+	// joining isn't enough: a thread that had been taken from the stack
+	// of free threads but hadn't started encoding yet wouldn't return
+	// itself to the stack (the next Stream could then wait forever for
+	// a free thread), and a thread that has just become idle may still
+	// be updating the shared state.
 	assert(options->threads > 0);
-	if (coder->threads_max != options->threads) {
+	if (coder->threads_max != options->threads
+			|| coder->threads_initialized > 0) {
 		threads_end(coder, allocator);
 
 		coder->threads = NULL;
@@ -1125,11 +1131,12 @@ stream_encoder_mt_init(lzma_next_coder *next, const lzma_allocator *allocator,
 			return LZMA_MEM_ERROR;
 
 		coder->threads_max = options->threads;
-	} else {
-		// Reuse the old structures and threads. Tell the running
-		// threads to stop and wait until they have stopped.
-		threads_stop(coder, true);
 	}
+
+	// These must be reset only after the old threads are gone because
+	// a thread that was still running could set thread_error.
+	coder->thread_error = LZMA_OK;
+	coder->thr = NULL;
 
 	// Output queue
 	return_if_error(lzma_outq_init(&coder->outq, allocator,
